@@ -2,6 +2,13 @@ module verifharness
 
 go 1.26
 
-require github.com/acquirecloud/golibs v0.0.0
+require (
+	github.com/acquirecloud/golibs v0.0.0
+	github.com/alicebob/miniredis/v2 v2.30.2
+	github.com/anishathalye/porcupine v1.3.0
+	github.com/go-redis/redis/v8 v8.11.5
+	github.com/gobwas/glob v0.2.3
+	google.golang.org/protobuf v1.30.0
+)
 
 replace github.com/acquirecloud/golibs => ../repo
